@@ -123,10 +123,23 @@ impl<R> Archive<R> {
                 .unwrap(),
         ) as usize;
 
+        // The dictionary size is not to be trusted, the header layout it implies
+        // must be addressable and actually present in what the reader returns.
+        let invalid_size = || ArchiveError::invalid_archive("invalid dictionary size");
+        let truncated = || ArchiveError::invalid_archive("truncated header");
+        let dictionary_end = header::PRE_HEADER_SIZE
+            .checked_add(dictionary_size)
+            .ok_or_else(invalid_size)?;
+        let checksum_offset = dictionary_end.checked_add(8).ok_or_else(invalid_size)?;
+        let header_end = checksum_offset.checked_add(64).ok_or_else(invalid_size)?;
+        let remaining_size = dictionary_size
+            .checked_add(8 + 64)
+            .ok_or_else(invalid_size)?;
+
         // Read the dictionary, chunk data offset and header hash
         header.extend_from_slice(
             &reader
-                .read_at(header::PRE_HEADER_SIZE as u64, dictionary_size + 8 + 64)
+                .read_at(header::PRE_HEADER_SIZE as u64, remaining_size)
                 .await
                 .map_err(ArchiveError::ReaderError)?,
         );
@@ -134,9 +147,12 @@ impl<R> Archive<R> {
         // Verify the header against the header checksum
         let header_checksum = {
             let mut hasher = Blake2b512::new();
-            let offs = header::PRE_HEADER_SIZE + dictionary_size + 8;
-            hasher.update(&header[..offs]);
-            let header_checksum = HashSum::from(&header[offs..(offs + 64)]);
+            hasher.update(header.get(..checksum_offset).ok_or_else(truncated)?);
+            let header_checksum = HashSum::from(
+                header
+                    .get(checksum_offset..header_end)
+                    .ok_or_else(truncated)?,
+            );
             if header_checksum != &hasher.finalize()[..] {
                 return Err(ArchiveError::invalid_archive("invalid header checksum"));
             }
@@ -144,16 +160,18 @@ impl<R> Archive<R> {
         };
 
         // Deserialize the chunk dictionary
-        let dictionary: dict::ChunkDictionary = {
-            let offs = header::PRE_HEADER_SIZE;
-            prost::Message::decode(&header[offs..(offs + dictionary_size)])?
-        };
+        let dictionary: dict::ChunkDictionary = prost::Message::decode(
+            header
+                .get(header::PRE_HEADER_SIZE..dictionary_end)
+                .ok_or_else(truncated)?,
+        )?;
 
         // Get chunk data offset
-        let chunk_data_offset = {
-            let offs = header::PRE_HEADER_SIZE + dictionary_size;
-            u64::from_le_bytes(header[offs..(offs + 8)].try_into().unwrap())
-        };
+        let chunk_data_offset = header
+            .get(dictionary_end..checksum_offset)
+            .and_then(|bytes| bytes.try_into().ok())
+            .map(u64::from_le_bytes)
+            .ok_or_else(truncated)?;
         let archive_chunks = dictionary
             .chunk_descriptors
             .into_iter()
